@@ -392,6 +392,23 @@ ReplaceNodes(s, g, ip, olds, news, v, w) ==
       r4 == IF r3.out # "ok" THEN r3 ELSE GRemove(r3.s, g, olds, TRUE)
   IN IF r4.out = "ok" THEN r4 ELSE Rej(s, r4.out)
 
+\* Graph(inputs, outputs, nodes=[n], initializers=[iv]) for the graph slot g, which must be pristine (nothing in it,
+\* name authority untouched - a freshly constructed object): the constructor claims the inputs, the outputs and the
+\* initializers, registers / generates the names of inputs and initializers and links the nodes.  A constructor
+\* that raises is a rejected call like any other: the values and nodes handed to it are as they were (C06).
+Pristine(s, g) == /\ s.gNodes[g] = <<>> /\ s.gIn[g] = <<>> /\ s.gOut[g] = <<>> /\ s.gInit[g] = <<>>
+                  /\ s.gCnt[g] = 0 /\ s.gSeen[g] = {}
+NewGraph(s, g, ins, outs, iv, n) ==
+  IF ~Pristine(s, g) THEN Rej(s, "not-fresh")
+  ELSE
+    LET r1 == IOExtend(s, "in", g, ins)
+        r2 == IF r1.out # "ok" THEN r1 ELSE IOExtend(r1.s, "out", g, outs)
+        r3 == IF r2.out # "ok" \/ iv = 0 THEN r2 ELSE InitSet(r2.s, g, r2.s.vName[iv], iv)
+        r4 == IF r3.out # "ok" THEN r3
+              ELSE Ok(FoldLeft(LAMBDA acc, v : RegisterValue(acc, g, v), r3.s, ins \o (IF iv = 0 THEN <<>> ELSE <<iv>>)))
+        r5 == IF r4.out # "ok" \/ n = 0 THEN r4 ELSE GExtend(r4.s, g, <<n>>)
+    IN IF r5.out = "ok" THEN r5 ELSE Rej(s, r5.out)
+
 \* =======================================================================================
 \* Calls: one uniform record shape so that a call is JSON on both sides of the binding
 \* =======================================================================================
@@ -438,6 +455,7 @@ Apply(s, c) ==
     [] c.op = "ReplaceAllUsesSeq" -> ReplaceAllUsesSeq(s, c.vs, c.ws, c.flag)
     [] c.op = "InitUpdateKeys" -> InitUpdateKeys(s, c.g, c.name, c.v, c.k, c.w)
     [] c.op = "ReplaceNodes" -> ReplaceNodes(s, c.g, c.n, c.vs, c.ws, c.v, c.w)
+    [] c.op = "NewGraph" -> NewGraph(s, c.g, c.vs, c.ws, c.v, c.n)
 
 ApplyAll(s, cs) == FoldLeft(LAMBDA acc, c : Apply(acc, c).s, s, cs)
 Outcomes(s, cs) ==   \* the sequence of [c, out] records of running cs from s
